@@ -46,7 +46,7 @@ var c02Kinds = []string{
 	"flip-proof-byte", "flip-proof-byte", "flip-proof-byte", "replace-proof-byte",
 	"replace-D", "replace-L", "replace-R", "replace-a", "splice-ipa",
 	"C-other", "C-other", "z-other", "z-other", "y-other", "y-other",
-	"swap", "dup", "drop",
+	"swap", "dup", "drop", "swap-y", "swap-z", "swap-C",
 	"label",
 	"shape-L", "shape-R", "shape-LR", "zero-openings", "len-ys", "len-zs", "len-ys-longer", "len-zs-longer", "len-cs-longer",
 	"repr", "repr",
@@ -82,7 +82,7 @@ func (c02) Gen(seed uint64, run int, tier, variant string) interface{} {
 		f.Pos = r.Intn(n)
 	case "C-other", "z-other", "y-other", "dup", "drop":
 		f.Pos = r.Intn(n)
-	case "swap":
+	case "swap", "swap-y", "swap-z", "swap-C":
 		f.Pos, f.Pos2 = r.Intn(n), r.Intn(n)
 	case "shape-L", "shape-R", "shape-LR":
 		f.Pos = r.Pick([]int{0, 1, 7, 9, 2, 16})
@@ -258,6 +258,17 @@ func (c02) Exec(plan interface{}) Result {
 		d.Cs[i], d.Cs[j] = d.Cs[j], d.Cs[i]
 		d.zs[i], d.zs[j] = d.zs[j], d.zs[i]
 		d.ys[i], d.ys[j] = d.ys[j], d.ys[i]
+		d.reprs[i], d.reprs[j] = d.reprs[j], d.reprs[i]
+	case "swap-y":
+		// only the claimed values change places (interesting when both openings share z or C)
+		i, j := f.Pos%n, f.Pos2%n
+		d.ys[i], d.ys[j] = d.ys[j], d.ys[i]
+	case "swap-z":
+		i, j := f.Pos%n, f.Pos2%n
+		d.zs[i], d.zs[j] = d.zs[j], d.zs[i]
+	case "swap-C":
+		i, j := f.Pos%n, f.Pos2%n
+		d.Cs[i], d.Cs[j] = d.Cs[j], d.Cs[i]
 		d.reprs[i], d.reprs[j] = d.reprs[j], d.reprs[i]
 	case "dup":
 		i := f.Pos % n
